@@ -289,6 +289,16 @@ func (p *parser) parsePrimaryExpression() Node {
 	case Number:
 		p.next()
 		value := strings.Replace(token.Value, "_", "", -1)
+		if strings.HasPrefix(value, "0x") || strings.HasPrefix(value, "0X") {
+			// Hexadecimal: e and E are digits here, not an exponent.
+			number, err := strconv.ParseInt(value, 0, 64)
+			if err != nil {
+				p.error("invalid hex literal: %v", err)
+			}
+			node := &IntegerNode{Value: int(number)}
+			node.SetLocation(token.Location)
+			return node
+		}
 		if strings.ContainsAny(value, ".eE") {
 			number, err := strconv.ParseFloat(value, 64)
 			if err != nil {
